@@ -219,8 +219,11 @@ Definition tstep (s : tstate) (i : tin) (oracle : list hans) : tstate * list tou
            if tc_store c then [OGs (GUnregisterStore k) true] else [])
       end
   | XUseStore k =>
+      (* graphsync refuses a second registration under the same name: the call fails and the
+         channel's store stays the one registered first, for the channel's whole lifetime *)
       let c := track k s in
-      (set_chan s k (c <| tc_store := true |>), [OGs (GRegisterStore k) true; ORet true])
+      if tc_store c then (set_chan s k c, [OGs (GRegisterStore k) false; ORet false])
+      else (set_chan s k (c <| tc_store := true |>), [OGs (GRegisterStore k) true; ORet true])
   | GIncomingRequest p rid om =>
       match om with
       | None => (s, [])                              (* no data-transfer extension: not ours *)
